@@ -51,6 +51,9 @@ def run(ctx):
     check_case_decisions(ctx, T)
     check_strip_comments(ctx, T)
     check_placement(ctx)
+    from .. import rules_tree as RT2
+    ctx.rule('R8.5', 'strip_comments reaches every comment: the filter descends into every group (get_sublists yields every group child)', floor=3)
+    RT2.check_filter_descends(ctx, 'R8.5', RF.filter_class(ctx, 'StripCommentsFilter'))
     from .. import rules_base as RB
     ctx.rule('R8.B', 'base model: token-type containment, token flags / normal form, Token.match and imt behave as the abstract evaluation assumes', floor=1)
     RB.check_base_model(ctx, 'R8.B', parts=('contains', 'flags', 'match', 'imt'))
